@@ -118,6 +118,7 @@ pub fn run_batch(docs: &[Doc], workdir: &str) -> Result<Vec<String>, String> {
     std::fs::write(format!("{}/Cargo.toml", dir), "[package]\nname = \"macro_cases\"\nversion = \"0.1.0\"\nedition = \"2021\"\n[workspace]\n[dependencies]\njson-syntax = { path = \"/repo\" }\n[profile.dev]\nopt-level = 0\ndebug = false\n").map_err(|e| e.to_string())?;
     let _ = std::fs::copy("/repo/Cargo.lock", format!("{}/Cargo.lock", dir));
     let mut src = String::from("#![recursion_limit = \"1024\"]\n#![allow(unused_parens, clippy::all)]\nuse json_syntax::{json, Value};\n");
+    src.push_str("fn hh(v: &Value) -> u64 { use std::hash::{Hash, Hasher}; let mut s = std::collections::hash_map::DefaultHasher::new(); v.hash(&mut s); s.finish() }\n");
     src.push_str("fn cps(s: &str) -> String { s.chars().map(|c| format!(\"{:x}\", c as u32)).collect::<Vec<_>>().join(\".\") }\n");
     src.push_str("fn show(v: &Value, o: &mut String) { match v { Value::Null => o.push('n'), Value::Boolean(true) => o.push('t'), Value::Boolean(false) => o.push('f'), Value::Number(n) => { o.push('#'); o.push_str(&cps(n.as_str())); o.push(';'); } Value::String(s) => { o.push('s'); o.push_str(&cps(s.as_str())); o.push(';'); } Value::Array(a) => { o.push('['); for x in a { show(x, o); } o.push(']'); } Value::Object(ob) => { o.push('{'); for e in ob.entries() { o.push('k'); o.push_str(&cps(e.key.as_str())); o.push(';'); show(&e.value, o); } o.push('}'); } } }\n");
     for (i, d) in docs.iter().enumerate() {
@@ -130,7 +131,10 @@ pub fn run_batch(docs: &[Doc], workdir: &str) -> Result<Vec<String>, String> {
         src.push_str(&format!("    json!({})\n}}\n", body));
     }
     src.push_str("fn main() {\n");
-    for i in 0..docs.len() { src.push_str(&format!("    {{ let mut o = String::new(); show(&case{}(), &mut o); println!(\"{{}}\", o); }}\n", i)); }
+    for (i, d) in docs.iter().enumerate() {
+        // `==` both ways against the parse of the matching text, and equal hashes (Object's PartialEq / Hash see the key index)
+        src.push_str(&format!("    {{ let mut o = String::new(); let c = case{}(); show(&c, &mut o); let p = <Value as json_syntax::Parse>::parse_str({:?}).map(|r| r.0); let eq = p.as_ref().map_or(false, |p| *p == c && c == *p && hh(p) == hh(&c) && c.clone() == c); println!(\"{{}} {{}}\", o, if eq {{ \"EQ\" }} else {{ \"NE\" }}); }}\n", i, json_text(d)));
+    }
     src.push_str("}\n");
     std::fs::write(format!("{}/src/main.rs", dir), src).map_err(|e| e.to_string())?;
     let out = std::process::Command::new("cargo").args(["run", "--offline", "-q"]).current_dir(&dir).env("CARGO_NET_OFFLINE", "true").env("CARGO_TARGET_DIR", format!("{}/macro_target", workdir)).env_remove("RUSTFLAGS").output().map_err(|e| e.to_string())?;
@@ -149,6 +153,8 @@ pub fn process(docs: &[Doc], out: &mut Out, workdir: &str) {
         }
         Ok(lines) => {
             for (d, line) in docs.iter().zip(lines.iter()) {
+                let (line, flag) = match line.rsplit_once(' ') { Some((l, f)) => (l.to_string(), f.to_string()), None => (line.clone(), String::new()) };
+                let line = &line;
                 let mut vars = Vec::new();
                 let req = format!("macro {}", notation(d, &mut vars));
                 out.cur = req.clone();
@@ -157,6 +163,7 @@ pub fn process(docs: &[Doc], out: &mut Out, workdir: &str) {
                     Ok((v, _)) => out.oracle(show_value(&v) == *line, "json!(literal) = parse of the corresponding JSON text", || format!("macro {} / parse({}) {}", line, text, show_value(&v))),
                     Err(e) => out.oracle(false, "reference text parses", || format!("{}: {}", text, crate::parse::show_err(&e, false))),
                 }
+                out.oracle(flag == "EQ", "json!(literal) == parse of the corresponding JSON text (both ways, equal hashes), evaluated in the generated program", || format!("macro {} flag {}", line, flag));
                 out.record(&req, &format!("ok {}", line), true);
             }
             out.oracle(lines.len() == docs.len(), "one output line per program", || format!("{} vs {}", lines.len(), docs.len()));
